@@ -13,6 +13,7 @@ import (
 
 // Req is what authorize() can see in a request.
 type Req struct {
+	QrySpell   int // 0: authorization=v; 1: %61uthorization=v; 2: bare key when the value is empty (not part of the model: same request)
 	Post       bool
 	AuthHdr    []string // nil = header absent
 	AuthQry    []string // nil = parameter absent
@@ -42,7 +43,15 @@ func (q Req) Build(method, path string, extra url.Values, body string, ctype str
 	}
 	target := path
 	if len(v) > 0 {
-		target += "?" + v.Encode()
+		qs := v.Encode()
+		// other spellings of the same query string: the key percent-encoded; a key without "=" for an empty value
+		switch {
+		case q.AuthQry != nil && q.QrySpell == 1:
+			qs = strings.ReplaceAll(qs, "authorization=", "%61uthorization=")
+		case q.AuthQry != nil && q.QrySpell == 2 && len(q.AuthQry) == 1 && q.AuthQry[0] == "":
+			qs = strings.Replace(qs, "authorization=", "authorization", 1)
+		}
+		target += "?" + qs
 	}
 	var r *http.Request
 	if method == http.MethodPost {
